@@ -143,12 +143,12 @@ func runToChannel(c driver.Case) driver.Result {
 		}
 	}()
 	// wait for the source to be subscribed (ToChannel subscribes from its own goroutine)
-	deadline := time.Now().Add(2 * time.Second)
+	deadline := time.Now().Add(20 * time.Second)
 	for !s.IsSubscribed() && time.Now().Before(deadline) {
 		time.Sleep(100 * time.Microsecond)
 	}
 	if !s.IsSubscribed() {
-		return fail("source-never-subscribed", "the source was not subscribed within 2s")
+		return driver.Result{Verdict: driver.Inconclusive, Key: "source-not-subscribed-in-time", Msg: what}
 	}
 	var escaped any
 	sent := 0
@@ -210,10 +210,11 @@ func runToChannel(c driver.Case) driver.Result {
 	if reader == "eager" {
 		// everything that was put in the channel is read; after a terminal or an unsubscription the channel must be closed
 		if ended || cut >= 0 {
-			select {
-			case <-readerDone:
-			case <-time.After(3 * time.Second):
-				return fail("channel-not-closed", "the reader is still waiting: the channel was not closed after the stream ended / was unsubscribed")
+			switch st, _, _ := quiesce.Call(func() { <-readerDone }, 20*time.Second); st {
+			case quiesce.Hung:
+				return fail("channel-not-closed", "the reader is still waiting and every goroutine is blocked: the channel was not closed after the stream ended / was unsubscribed")
+			case quiesce.TimedOut:
+				return driver.Result{Verdict: driver.Inconclusive, Key: "reader-not-finished-in-time", Msg: what, Dirty: true}
 			}
 			if !closedSeen.Load() {
 				return fail("channel-not-closed", "reader stopped without seeing the channel closed")
@@ -252,11 +253,12 @@ func runToChannel(c driver.Case) driver.Result {
 			}
 			closed <- true
 		}()
-		select {
-		case <-closed:
-		case <-time.After(3 * time.Second):
+		switch st, _, _ := quiesce.Call(func() { <-closed }, 20*time.Second); st {
+		case quiesce.Hung:
 			res.Dirty = true
-			return fail("channel-not-closed-after-unsubscribe", "draining the channel after Unsubscribe never ends")
+			return fail("channel-not-closed-after-unsubscribe", "draining the channel after Unsubscribe never ends; every goroutine is blocked")
+		case quiesce.TimedOut:
+			return driver.Result{Verdict: driver.Inconclusive, Key: "drain-not-finished-in-time", Msg: what, Dirty: true}
 		}
 	}
 	// the subscriber itself: exactly one Next (the channel) and, when the stream ended, one Complete
